@@ -327,9 +327,23 @@ impl Crash {
             }
         }
         // R2: free and untouched frames are free
+        // "free" = not covered by any held block. (Under concurrency the order of returns is not
+        // the linearisation order: a free may return after a later allocation of the same frame
+        // has already returned, so a per-frame flag updated at returns would be wrong.)
         let touched = self.ledger.touched_mask();
+        let mut covered = vec![false; self.cfg.frames];
+        // blocks a started free names a part of are not checked by R1, but they are not free either
+        let removed = self.ledger.inflight.values().flat_map(|i| i.removed.iter());
+        for b in self.ledger.held.values().chain(removed) {
+            for f in b.frame..b.end().min(self.cfg.frames) {
+                covered[f] = true;
+            }
+        }
         for f in 0..self.cfg.frames {
-            if !self.ledger.done_alloc[f] && !touched[f] && bitmap[f] {
+            if !covered[f] && !touched[f] && bitmap[f] {
+                if std::env::var_os("LLSIM_DEBUG").is_some() {
+                    eprintln!("R2 debug: inflight={:?} version={}", self.ledger.inflight, self.version);
+                }
                 self.violations.push(Violation::new(
                     "C05",
                     "R2-free-frame-allocated",
